@@ -36,13 +36,14 @@ structure Bloom where
   bytes : List Nat        -- `_bit_array`, `(size + 7) // 8` bytes
   count : Nat             -- `_items_added`
   auth : Bool             -- `_authoritative`
+  aged : Bool             -- "now - `_creation_time` > `_max_age_seconds`" (time is not modelled: set by an op flag)
   deriving Repr, DecidableEq
 
 def nbytes (size : Nat) : Nat := (size + 7) / 8
 
 /-- a freshly constructed filter -/
 def Bloom.fresh (size : Nat) : Bloom :=
-  { size := size, bytes := List.replicate (nbytes size) 0, count := 0, auth := false }
+  { size := size, bytes := List.replicate (nbytes size) 0, count := 0, auth := false, aged := false }
 
 /-- `_get_bit(pos)` — an index past the array would be an IndexError in Python; `none` here -/
 def Bloom.getPos (b : Bloom) (p : Nat) : Option Bool := (b.bytes[p / 8]?).map (fun byte => getBit byte (p % 8))
@@ -68,7 +69,7 @@ def Bloom.markSeen (pos : Id → List Nat) (b : Bloom) (id : Id) : Bloom :=
 
 /-- `reset` -/
 def Bloom.reset (b : Bloom) : Bloom :=
-  { b with bytes := List.replicate (nbytes b.size) 0, count := 0, auth := false }
+  { b with bytes := List.replicate (nbytes b.size) 0, count := 0, auth := false, aged := false }
 
 /-- `hydrate(ids)`: every id is set, then authority is granted -/
 def Bloom.hydrate (pos : Id → List Nat) (b : Bloom) (ids : List Id) : Bloom :=
@@ -80,7 +81,7 @@ def popByte (byte : Nat) : Nat := ((List.range 8).filter (fun i => getBit byte i
 def Bloom.setBits (b : Bloom) : Nat := (b.bytes.map popByte).sum
 
 /-- `should_reset(threshold=0.7)`: `fill_ratio > 0.7`, or the filter is older than its max age -/
-def Bloom.shouldReset (b : Bloom) (aged : Bool) : Bool := aged || decide (10 * b.setBits > 7 * b.size)
+def Bloom.shouldReset (b : Bloom) : Bool := b.aged || decide (10 * b.setBits > 7 * b.size)
 
 /-! ### the processor -/
 
@@ -88,6 +89,8 @@ structure Cfg where
   size : Nat          -- bits of the process-wide filter
   cap : Nat           -- its `expected_items`
   trust : Bool        -- `dedup_trust_negative_cache`
+  markOnRaise : Bool := false   -- false: the code as found; true: with proposed_fixes/F7.diff (`_handle_message` marks
+                                -- the filter when the handler raises, because the handler may already have committed)
   deriving Repr
 
 /-- what the handler does with the delivered message -/
@@ -99,7 +102,8 @@ inductive Outcome where
   deriving DecidableEq, Repr
 
 inductive Op where
-  | handle (id : Id) (o : Outcome) (aged : Bool)   -- `_handle_message` on a delivery of message `id`
+  | handle (id : Id) (o : Outcome) (aged : Bool)   -- `_handle_message` on a delivery of message `id`; `aged`: the
+                                                   -- filter's max age elapsed before this delivery
   | restart                                        -- new process: fresh filter, `QueueProcessor.__init__` hydrates
   | rotate                                         -- `reset()` + `_hydrate_deduplicator()`
   | peerMarks (id : Id)                            -- another worker inserts into processed_messages
@@ -135,18 +139,29 @@ inductive Obs where
   | skipped | ran | other
   deriving DecidableEq, Repr
 
+/-- time passing: the filter becomes older than its max age (stays so until it is reset) -/
+def ageState (s : State) (aged : Bool) : State :=
+  if aged then { s with bloom := { s.bloom with aged := true } } else s
+
+/-- the filter after the handler raised -/
+def onRaise (pos : Id → List Nat) (c : Cfg) (b : Bloom) (id : Id) : Bloom :=
+  if c.markOnRaise then b.markSeen pos id else b
+
+/-- `_handle_message` on a delivery of `id` whose handler would behave as `o` -/
+def handleMsg (pos : Id → List Nat) (c : Cfg) (s : State) (id : Id) (o : Outcome) : State × Obs :=
+  if skips pos c s id then (s, .skipped) else
+  -- rotation check, before the handler runs
+  let b1 := if s.bloom.shouldReset then rotateBloom pos c.cap s.store s.bloom else s.bloom
+  let runs := id :: s.runs
+  match o with
+  | .raiseBefore => ({ s with bloom := onRaise pos c b1 id, runs := runs }, .ran)
+  | .commitRaise => ({ bloom := onRaise pos c b1 id, store := storeAdd s.store id, runs := runs }, .ran)
+  | .commitReturn | .plainReturn =>
+    -- handler returned: `dedup.mark_seen` + `store.mark_message_processed`
+    ({ bloom := b1.markSeen pos id, store := storeAdd s.store id, runs := runs }, .ran)
+
 def step (pos : Id → List Nat) (c : Cfg) (s : State) : Op → State × Obs
-  | .handle id o aged =>
-    if skips pos c s id then (s, .skipped) else
-    -- rotation check, before the handler runs
-    let b1 := if s.bloom.shouldReset aged then rotateBloom pos c.cap s.store s.bloom else s.bloom
-    let runs := id :: s.runs
-    match o with
-    | .raiseBefore => ({ s with bloom := b1, runs := runs }, .ran)
-    | .commitRaise => ({ bloom := b1, store := storeAdd s.store id, runs := runs }, .ran)
-    | .commitReturn | .plainReturn =>
-      -- handler returned: `dedup.mark_seen` + `store.mark_message_processed`
-      ({ bloom := b1.markSeen pos id, store := storeAdd s.store id, runs := runs }, .ran)
+  | .handle id o aged => handleMsg pos c (ageState s aged) id o
   | .restart => ({ s with bloom := hydrateFromStore pos c.cap s.store (Bloom.fresh c.size) }, .other)
   | .rotate => ({ s with bloom := rotateBloom pos c.cap s.store s.bloom }, .other)
   | .peerMarks id => ({ s with store := storeAdd s.store id }, .other)
@@ -163,7 +178,7 @@ def runCount (s : State) (id : Id) : Nat := (s.runs.filter (· == id)).length
 
   `dedup bloom size=<bits> pos=<id:p.p.p,id:p.p,...|-> ops=<op;op;...>`
        ops: `m:<id>` mark_seen, `q:<id>` maybe_seen, `hyd:<id,id,..|->` hydrate, `reset`, `f` (set bits / should_reset)
-  `dedup proc size=<bits> cap=<n> trust=<0|1> pos=<...> ops=<op;op;...>`
+  `dedup proc size=<bits> cap=<n> trust=<0|1> mor=<0|1> pos=<...> ops=<op;op;...>`   (`mor`: Cfg.markOnRaise)
        ops: `h:<id>:<cr|cx|rx|pr>[:a]`, `restart`, `rot`, `peer:<id>`, `clean:<id,id,..>`
 -/
 
@@ -206,7 +221,7 @@ def bstep (pos : Id → List Nat) (b : Bloom) : BOp → Bloom × String
   | .query i => (b, b01 (b.maybeSeen pos i))
   | .hyd l => let b' := b.hydrate pos l; (b', s!"auth={b01 b'.auth} n={b'.count}")
   | .reset => let b' := b.reset; (b', s!"auth={b01 b'.auth} n={b'.count}")
-  | .fill => (b, s!"bits={b.setBits} sr={b01 (b.shouldReset false)} auth={b01 b.auth}")
+  | .fill => (b, s!"bits={b.setBits} sr={b01 b.shouldReset} auth={b01 b.auth}")
 
 def brun (pos : Id → List Nat) (b : Bloom) : List BOp → List String
   | [] => []
@@ -252,16 +267,17 @@ def drive (rest : String) : String :=
     match parsed with
     | some (sz, tbl, ops) => "|".intercalate (brun (posTable tbl) (Bloom.fresh sz) ops)
     | none => "bad-request"
-  | ["proc", sz, cap, tr, ps, ops] =>
+  | ["proc", sz, cap, tr, mor, ps, ops] =>
     let parsed : Option (Cfg × List (Id × List Nat) × List Op) := do
       let sz ← (kvArg "size" sz) >>= Parse.nat?
       let cap ← (kvArg "cap" cap) >>= Parse.nat?
       let tr ← (kvArg "trust" tr) >>= Parse.bool?
+      let mor ← (kvArg "mor" mor) >>= Parse.bool?
       let tbl ← (kvArg "pos" ps) >>= parsePos
       let ops ← kvArg "ops" ops
       let known := fun i => (tbl.lookup i).isSome
       let ops ← Parse.all? (parseOp known) (Parse.splitNE ops ";")
-      if sz = 0 then none else pure ({ size := sz, cap := cap, trust := tr }, tbl, ops)
+      if sz = 0 then none else pure ({ size := sz, cap := cap, trust := tr, markOnRaise := mor }, tbl, ops)
     match parsed with
     | some (c, tbl, ops) => "|".intercalate (prun (posTable tbl) c (init c) ops)
     | none => "bad-request"
